@@ -104,6 +104,100 @@ func runC09(c *core.Ctx, r *core.Reporter) {
 	c09div(c, r)
 	c09assert(c, r)
 	c09nilok(c, r)
+	c09varassert(c, r)
+}
+
+// c09varassert: single-result type assertions on the value of a special variable.
+func c09varassert(c *core.Ctx, r *core.Reporter) {
+	const rule = "C09.varassert"
+	r.Rule(rule, "every single-result type assertion on the value of a named variable looked up in the scope (Scope.Get with a constant name other than the system-bound self) is dominated by a successful comma-ok test of the same value: a program may bind any special variable (*package*, *standard-output*, *print-right-margin*, ...) to any object, and a failed single-result assertion is a Go run-time panic", 8)
+	an := lenflow.New(c)
+	seen := map[string]int{}
+	for _, fn := range c.ModuleFuncs() {
+		if takesTestingT(fn) || fn.Pkg == nil {
+			continue
+		}
+		var g *core.Guards
+		for _, b := range fn.Blocks {
+			for _, in := range b.Instrs {
+				ta, ok := in.(*ssa.TypeAssert)
+				if !ok || ta.CommaOk {
+					continue
+				}
+				call, ok := ta.X.(*ssa.Call)
+				if !ok {
+					continue
+				}
+				callee := call.Call.StaticCallee()
+				if callee == nil || callee.Name() != "Get" || callee.Signature.Recv() == nil || callee.Pkg == nil || callee.Pkg.Pkg.Path() != core.SlipPath {
+					continue
+				}
+				rt := callee.Signature.Recv().Type()
+				if pt, isP := rt.(*types.Pointer); isP {
+					rt = pt.Elem()
+				}
+				if !core.IsNamed(rt, core.SlipPath, "Scope") || len(call.Call.Args) < 2 {
+					continue
+				}
+				name, isConst := core.StringConst(call.Call.Args[1])
+				if !isConst {
+					name = "?"
+				}
+				if name == "self" {
+					continue
+				}
+				key := fmt.Sprintf("%s|%s.(%s)", core.SSAName(fn), name, types.TypeString(ta.AssertedType, func(pk *types.Package) string { return pk.Name() }))
+				seen[key]++
+				if n := seen[key]; n > 1 {
+					key = fmt.Sprintf("%s#%d", key, n)
+				}
+				if g == nil {
+					g = core.ComputeGuards(fn, an.NoReturn)
+				}
+				proven := false
+				for _, rf := range *call.Referrers() {
+					t2, isTA := rf.(*ssa.TypeAssert)
+					if !isTA || !t2.CommaOk || !(types.Identical(t2.AssertedType, ta.AssertedType) || types.AssignableTo(t2.AssertedType, ta.AssertedType)) {
+						continue
+					}
+					for _, rf2 := range *t2.Referrers() {
+						if ex, isEx := rf2.(*ssa.Extract); isEx && ex.Index == 1 {
+							for f := range g.Facts(b) {
+								if f.If.Cond == ssa.Value(ex) && f.Branch {
+									proven = true
+								}
+							}
+						}
+					}
+				}
+				if proven {
+					r.Hold(rule, key, c.Pos(ta.Pos()), "dominated by a successful type test of the same value")
+					continue
+				}
+				if ex, ok := varAssertExceptions[key]; ok {
+					r.Hold(rule, key, c.Pos(ta.Pos()), "accepted by reading: "+ex)
+					continue
+				}
+				r.Violate(rule, key, c.Pos(ta.Pos()), "the variable's value is asserted without a test")
+			}
+		}
+	}
+}
+
+const topScopeReason = "reads the variable from the REPL's own top-level scope (or a fresh scope), which sees only the global value; the global setter rejects anything that is not a stream: (setq *standard-output* 5) signals a type error"
+
+var varAssertExceptions = map[string]string{
+	"pkg/repl.(editor).initialize|*standard-input*.(io.Reader)":   topScopeReason,
+	"pkg/repl.(editor).initialize|*standard-output*.(io.Writer)":  topScopeReason,
+	"pkg/repl.(termReader).read|*standard-input*.(io.Reader)":     topScopeReason,
+	"pkg/repl.(termReader).read|*standard-output*.(io.Writer)":    topScopeReason,
+	"pkg/repl.Run$1|*standard-output*.(io.Writer)":                topScopeReason,
+	"pkg/repl.process$1|*standard-output*.(io.Writer)":            topScopeReason,
+	"pkg/repl.process$1|*standard-output*.(io.Writer)#2":          topScopeReason,
+	"pkg/repl.process$1|*standard-output*.(io.Writer)#3":          topScopeReason,
+	"pkg/repl.process$1|*standard-output*.(io.Writer)#4":          topScopeReason,
+	"pkg/repl.process|*standard-output*.(io.Writer)":              topScopeReason,
+	"pkg/watch.displayError|*error-output*.(io.Writer)":           topScopeReason,
 }
 
 // c09nilok: v, _ := x.(*T) yields nil when x is something else; v must be nil-tested before it is used.
